@@ -189,6 +189,10 @@ def run(ctx: Ctx):
     r_models(ctx, model, tr)
     r_point(ctx, model, tr)
     ctx.analysed["models"] = CLOSED + QUAD
+    from ..sites import no_memoisation
+    ctx.rule("S-fresh: no caching decorator on any function of pygaps.modelling.")
+    no_memoisation(ctx, load(ctx.root), "C11", "S-fresh", ('pygaps.modelling.',),
+                   "the spreading pressure must be the integral for the model's current parameters: a cached value survives a refit or a parameter change (the cache key is the model object)")
 
 
 META = {
